@@ -50,6 +50,14 @@ def run(ctx):
     # over the planner's files)
     from . import C20
     C20.check_mutable_defaults(ctx, [f for f in ctx.src.py_files('mindsdb_sql') if f.startswith(PLANNER)], 'C09.fresh-step-containers')
+    # (0b) a CTE's result is referenced by the steps that read it: the table that maps CTE names to results is written (plan_cte) and read
+    # (get_integration_select_step) under the same spelling (C08's table, re-run)
+    from . import C08
+    C08._CTX.clear()
+    C08._CTX.update(tree=ctx.src.tree(C08.PJ), src=ctx.src, ctx=ctx)
+    for label, ok, msg, line in C08.cte_roundtrip_rows(ctx):
+        ctx.ob('C09.cte-result-reference', label, ok, msg, file='mindsdb_sql/planner/query_planner.py', line=line,
+               witness='with Tab as (select * from int1.t) select * from Tab a join int2.u b on a.id = b.id')
     # (1) result-mint --------------------------------------------------------------------------------------------
     mints = []
     for f in ctx.src.py_files('mindsdb_sql'):
